@@ -198,6 +198,26 @@ class Matches(Ex):  # matches!(e, c1 | c2 | ...)  — a Rust macro call inside a
         return Matches(s.e.sub(m), s.consts)
 
 
+class Blk(Ex):  # { let name = init; body }  — a block expression re-binding a name from its own previous value
+    def __init__(s, name, init, body):
+        s.name, s.init, s.body = name, init, body
+
+    def rs(s, vk):
+        inner = {k: v for k, v in vk.items() if k != s.name}
+        return "{ let %s = %s; %s }" % (s.name, s.init.rs(vk), s.body.rs(inner))
+
+    def ev(s, env):
+        e2 = dict(env)
+        e2[s.name] = s.init.ev(env)
+        return s.body.ev(e2)
+
+    def vars(s):
+        return s.init.vars() | (s.body.vars() - {s.name})
+
+    def sub(s, m):
+        return Blk(s.name, s.init.sub(m), s.body.sub({k: v for k, v in m.items() if k != s.name}))
+
+
 # patterns (for ?pat arguments, if let, let, for)
 class PV:  # binds a variable
     def __init__(s, n):
